@@ -1381,16 +1381,17 @@ func main() {
 		r.Note(fmt.Sprintf("time budget exhausted: %d scenarios not run", skipped))
 		r.Count("skipped-for-time")
 	}
-	for _, j := range jobs {
+	for i, j := range jobs {
 		if j.out != nil {
-			process(j, true)
+			// a deepened run (a tie broke) searches with the oracle; only the first scenarios go to the model as well
+			process(j, !r.Deep || i < 400)
 		}
 	}
 	// 4. thorough tier: systematic preemption-bounded enumeration (2 contenders: <= 3 preemptions, 3 contenders: <= 2)
 	if r.Thorough() || r.Deep {
 		each := func(j *job) {
 			if j.out != nil {
-				process(j, true)
+				process(j, !r.Deep)
 			}
 		}
 		cyc := []string{"TryLock", "Unlock"}
